@@ -36,7 +36,9 @@ static std::vector<void*> perturb_heap(int rank, std::uint64_t seed, std::size_t
 int main(int argc, char **argv) {
     mpi::environment env(argc, argv, mpi::threading::multiple);
     mpi::communicator world;
+#ifndef PARMCB_SHIM
     tbb::global_control gc(tbb::global_control::max_allowed_parallelism, 2);
+#endif
     if (argc < 2) return 2;
     std::ifstream in(argv[1]);
     std::cin.rdbuf(in.rdbuf());
@@ -67,6 +69,10 @@ int main(int argc, char **argv) {
         std::list<std::list<Edge>> cycles;
         auto wm = get(edge_weight, g);
         double ret = 0;
+#ifdef PARMCB_SHIM
+        // every rank runs its TBB regions under its own seeded schedule of the stand-in
+        tbbshim::reseed(pseed * 7919 + 104729 * (world.rank() + 1) + 1, 0);
+#endif
         if (entry == "mpi_signed") ret = parmcb::mcb_sva_signed_mpi(g, wm, std::back_inserter(cycles), world);
         else if (entry == "mpi_fvs") ret = parmcb::mcb_sva_fvs_trees_mpi(g, wm, std::back_inserter(cycles), world);
         else if (entry == "mpi_fvs_tbb") ret = parmcb::mcb_sva_fvs_trees_tbb_mpi(g, wm, std::back_inserter(cycles), world);
@@ -85,6 +91,17 @@ int main(int argc, char **argv) {
             for (auto &cy : cycles) { std::cout << "cycle " << cy.size(); for (auto &e : cy) std::cout << " " << get(edge_index, g, e); std::cout << "\n"; }
             double x = std::ldexp(ret, (int) scale);
             std::cout << "ret " << (long long) std::llround(x) << " " << (x == std::floor(x) ? 1 : 0) << "\n";
+#ifdef PARMCB_SHIM
+            if (entry == "mpi_signed") {
+                // rank 0 owns the support vector; its first parallel_for filled it by concurrent push_backs
+                for (auto &l : tbbshim::ctl().log) if (l.compare(0, 3, "for") == 0) {
+                    std::cout << "init";
+                    std::istringstream is(l.substr(3)); std::string tok;
+                    while (is >> tok) { auto p = tok.find(':'); std::size_t a = std::stoul(tok.substr(0, p)), b = std::stoul(tok.substr(p + 1)); for (std::size_t i = a; i < b; i++) std::cout << " " << i; }
+                    std::cout << "\n"; break;
+                }
+            }
+#endif
             std::cout << "entry " << entry << " " << world.size() << "\n";
             for (auto &r : reports) std::cout << r << "\n";
             std::cout << "end" << std::endl;
